@@ -341,7 +341,12 @@ func (p *Properties) Unpack(bufr *bytes.Buffer, packetType byte) error {
 	// The short forms of the acknowledgement and DISCONNECT packets end before the property length:
 	// an absent length means 0 (a length that is cut short inside its encoding is malformed).
 	if bufr.Len() == 0 {
-		return nil
+		switch packetType {
+		case PUBACK, PUBREC, PUBREL, PUBCOMP, DISCONNECT:
+			return nil
+		}
+		// every other packet carries its property length even if it is 0
+		return codes.ErrMalformed
 	}
 	length, err := EncodeRemainLength(bufr)
 	// 整个buffer最多只能读到length这么长
